@@ -90,7 +90,7 @@ TrCall == /\ l <= Len(Rec) /\ Rec[l].fam # "ctl" /\ l' = l + 1
                           THEN MemoFails(ev.op, A, r, meta) \cup RelationFails(ev.op, A, r)
                           ELSE CallFails(ev.fam, ev.op, A, r, meta)
              IN /\ Note(ev, fails)
-                /\ (IF DriftOn /\ (Drifted(ev.op, A, r) \/ DriftNoOverlap(ev.op, A, r))
+                /\ (IF DriftOn /\ (Drifted(ev.op, A, r) \/ DriftNoOverlap(ev.op, A, r) \/ PowiDrift(ev.op, A, r))
                     THEN TLCSet(6, Append(TLCGet(6), [l |-> l, op |-> ev.op, sp |-> ev.sp])) ELSE TRUE)
                 /\ Call(ev.fam, ev.op, A, r, meta)
 
